@@ -1,0 +1,34 @@
+//go:build verif
+// +build verif
+
+package json
+
+import (
+	"github.com/goccy/go-json/internal/decoder"
+	"github.com/goccy/go-json/internal/encoder"
+	"github.com/goccy/go-json/internal/runtime"
+)
+
+// VerifCacheInfo is what the verification harness reads about the type caches.
+type VerifCacheInfo struct {
+	Analysed                bool
+	Base, Max, Range, Shift uintptr
+	Sections                int
+	Links                   []runtime.VerifTypeLink
+	EncProblems             []string
+	DecProblems             []string
+	EncSlots, DecSlots      map[uintptr]uintptr
+}
+
+// VerifCacheReport is only present with the verif build tag.
+func VerifCacheReport() VerifCacheInfo {
+	var info VerifCacheInfo
+	if ta := runtime.AnalyzeTypeAddr(); ta != nil {
+		info.Analysed = true
+		info.Base, info.Max, info.Range, info.Shift = ta.BaseTypeAddr, ta.MaxTypeAddr, ta.AddrRange, ta.AddrShift
+	}
+	info.Sections, info.Links = runtime.VerifTypeLinks()
+	info.EncProblems, info.EncSlots = encoder.VerifReport()
+	info.DecProblems, info.DecSlots = decoder.VerifReport()
+	return info
+}
